@@ -81,10 +81,14 @@ def units(tier):
         for case in sc.cases:
             us.append(('%s/%s' % (key, sc.case_name(case)), {'key': key, 'case': case, 'tier': tier}))
     us += [(n, dict(k, tier=tier, riemann=True)) for n, k in rk.units('C01', ['fan_pde'], tier) if '/SCS/' not in n]
+    us.append(('ehep', {'ehep': True}))
     return us
 
 
-def run_unit(name, key=None, case=None, tier='quick', riemann=False, pat=None, fam=None):
+def run_unit(name, key=None, case=None, tier='quick', riemann=False, pat=None, fam=None, ehep=False):
+    if ehep:
+        from props import ehep_kit
+        return ehep_kit.unit('C01')
     if riemann: return rk.run_unit('C01', pat, fam, tier)
     sc = hydro.SOLVERS[key]
     return propkit.solver_unit(sc, case, per_path, tier)
